@@ -930,7 +930,9 @@ def _insert_js_css_to_default_locations(
     updated_html = html_content
     if css_content is not None and first_end_head_tag_index is not None:
         updated_html = updated_html[:first_end_head_tag_index] + css_content + updated_html[first_end_head_tag_index:]
-        index_offset = len(css_content)
+        # The CSS shifts the position of the last `</body>` only if it was inserted BEFORE it
+        if last_end_body_tag_index is not None and first_end_head_tag_index < last_end_body_tag_index:
+            index_offset = len(css_content)
         did_modify_html = True
 
     if js_content is not None and last_end_body_tag_index is not None:
